@@ -254,6 +254,19 @@ Theorem C13_set_dump_options_last_wins : forall buf ops o,
 Proof. exact rops_set_last_wins. Qed.
 Print Assumptions C13_set_dump_options_last_wins.
 
+(* ---- client-level configuration history (EnableDumpAll*, SetCommonDumpOptions, DisableDumpAll,
+        Transport-level EnableDump) and Clone: a clone dumps with the options in force on the original,
+        and a Transport-level EnableDump decides them whatever the setters left behind ---- *)
+Theorem C13_clone_keeps_options_in_force : forall ops,
+  in_force (cclone (run_cops ops)) = in_force (run_cops ops).
+Proof. exact clone_keeps_options_in_force. Qed.
+Print Assumptions C13_clone_keeps_options_in_force.
+
+Theorem C13_transport_enable_is_in_force : forall ops o,
+  in_force (run_cops (ops ++ [CTransportEnable o])) = Some (new_dumper o).
+Proof. exact transport_enable_is_in_force. Qed.
+Print Assumptions C13_transport_enable_is_in_force.
+
 (* ---- one drain goroutine per queue ---- *)
 Theorem C13_one_drainer_in_order : forall d ops,
   (forall op, In op ops -> drainer_of op = None \/ drainer_of op = Some d) ->
@@ -332,6 +345,15 @@ Theorem C13_old_stop_loses_writes :
   sdumped ops = [t] /\ s_out (run_sops true ops) = [t].
 Proof. exact old_stop_loses_writes. Qed.
 Print Assumptions C13_old_stop_loses_writes.
+
+(* Clone with the re-wiring guard reduced to a type check (e-m1) *)
+Theorem C13_unguarded_clone_refuted :
+  let o := mkOpts (Some 10%N) None None None None None None false false true false false in
+  let ops := [CEnableAllTo 17%N; CDisableAll; CTransportEnable o] in
+  in_force (cclone_unguarded (run_cops ops)) <> in_force (run_cops ops) /\
+  in_force (cclone (run_cops ops)) = Some o.
+Proof. exact unguarded_clone_uses_stale_options. Qed.
+Print Assumptions C13_unguarded_clone_refuted.
 
 (* two drain goroutines on one queue (c-m1) reorder *)
 Theorem C13_two_drainers_reorder :
